@@ -69,7 +69,7 @@ def _shape_text(a, b, c, n):
     rel = [str(a), str(b), str(c)][:s["n"]]
     if s.get("lead0"):
         rel[-1] = "0" + rel[-1]
-    text = s["prefix"] + ".".join(rel)
+    text = s["prefix"] + (str(n % 4) + "!" if s.get("epoch") else "") + ".".join(rel)
     if s["spelling"]:
         text += s["sep1"] + s["spelling"] + (s["sep2"] + str(n) if s["num"] else "")
     elif s.get("implicit_post"):
@@ -87,7 +87,7 @@ def version_text(a: int, b: int, c: int, n: int) -> bool:
     text = _shape_text(a, b, c, n)
     v = sv.Version(text)
     rel = (a, b, c)[:s["n"]]
-    if v.release != rel or v.epoch != 0 or v.local is not None:
+    if v.release != rel or v.epoch != (n % 4 if s.get("epoch") else 0) or v.local is not None:
         return False
     num = n if s["num"] else 0
     if s["spelling"]:
@@ -107,6 +107,8 @@ def version_text(a: int, b: int, c: int, n: int) -> bool:
         return False
     # canonical form: no prefix, short spelling, no separators before pre, '.post' / '.dev'
     want = ".".join(str(x) for x in rel)
+    if s.get("epoch") and n % 4 != 0:
+        want = str(n % 4) + "!" + want
     if want_pre:
         want += want_pre[0] + str(num)
     if want_post is not None:
